@@ -92,6 +92,7 @@ def run_retry(case):
             timeline.append((e['t'], 2, e['kind'], e))
         timeline.sort(key=lambda x: (x[0], x[1]))
         sessions = []       # (open time, close time or None)
+        concurrent = [False]
         try:
             cf.open_link('sim://1')
             sessions.append([s.now, None])
@@ -101,11 +102,19 @@ def run_retry(case):
                 link_open = cf.link is not None
                 if kind == 'req':
                     r = reqs[arg]
-                    pk = CRTPPacket()
-                    pk.set_header(r['port'], r['channel'])
-                    pk.data = bytes(r['data'])
-                    issue[arg] = (s.now, len(sessions) - 1 if link_open else None)
-                    cf.send_packet(pk, expected_reply=tuple(r['expected']), timeout=r['timeout'])
+
+                    def do_send(arg=arg, r=r):
+                        pk = CRTPPacket()
+                        pk.set_header(r['port'], r['channel'])
+                        pk.data = bytes(r['data'])
+                        issue[arg] = (s.now, len(sessions) - 1 if cf.link is not None else None)
+                        cf.send_packet(pk, expected_reply=tuple(r['expected']), timeout=r['timeout'])
+                    if r.get('thread'):
+                        # issued from another user thread: may interleave with a close/reopen at the same instant
+                        s.spawn(do_send, 'sender%d' % arg)
+                        concurrent[0] = True
+                    else:
+                        do_send()
                 elif kind == 'unrelated' and link_open and env.world.links:
                     env.world.links[-1].deliver((arg['port'], arg['channel'], bytes(arg['data'])), delay=0.0)
                 elif kind == 'close' and link_open:
@@ -154,6 +163,8 @@ def run_retry(case):
                 for (tt, port, ch, data, closed) in lnk.tx:
                     if (port, ch, data) == (r['port'], r['channel'], bytes(r['data'])):
                         tx.append((tt, si, closed))
+            if r.get('thread') and tx:
+                sess = tx[0][1]      # issued at the instant of a close/reopen: its session is the one that first carried it
             if sess is None:
                 if tx:
                     out.fail('retry:sent-while-closed', '%s: request %d issued with no link open was transmitted %r' % (desc, i, tx))
@@ -167,6 +178,13 @@ def run_retry(case):
                 continue
             times = [tt for tt, si, c in tx]
             t_close = sessions[sess][1] if sessions[sess][1] is not None else t_end
+            if r.get('thread'):
+                # issued concurrently with the close: it may or may not have made it onto the link, but nothing after the close
+                late = [x for x in times if x > t_close + EPS]
+                if late:
+                    out.fail('retry:unexpected-transmission:after-close', '%s: request %d (issued by another thread at the close instant %.4f) transmitted at %r' % (
+                        desc, i, t_close, [round(x, 4) for x in times]))
+                continue
             t_ans = dispatched.get(i)
             stop = min(x for x in (t_close, t_ans if t_ans is not None else 1e18))
             if not case['needs_resending'] or not r['expected']:
@@ -226,7 +244,7 @@ def retry_case(draw):
         if draw(st.sampled_from([True, True, True, False])):
             lost = draw(st.integers(0, 3))
             delay = draw(st.sampled_from([0.001, 0.05, T - 0.001, T, T + 0.001, 0.199, 0.2, 0.201, 0.4, 1.0, 1.2, 2 * T]))
-            reply = {'lost': lost, 'delay': delay, 'tail': [0xE0 + i]}
+            reply = {'lost': lost, 'delay': delay, 'tail': draw(st.sampled_from([[0xE0 + i], [0xE0 + i], []]))}
         reqs.append({'t': draw(st.sampled_from([0.0, 0.0, 0.05, 0.1, 0.3, 1.0])), 'port': p, 'channel': c, 'data': data, 'expected': expected,
                      'timeout': T, 'reply': reply})
     events = []
@@ -234,6 +252,11 @@ def retry_case(draw):
     if mode != 'none':
         tc = draw(st.sampled_from([0.1, 0.19, 0.2, 0.21, 0.35, 0.5, 0.95, 1.0, 1.05, 1.7, 2.5]))
         events.append({'t': tc, 'kind': 'close' if mode.startswith('close') else 'linkerror'})
+        if draw(st.booleans()):
+            # a request issued by another thread at the very instant of the close
+            i = len(reqs)
+            reqs.append({'t': tc, 'port': port, 'channel': channel, 'data': [8, 0x60, i], 'expected': [8], 'timeout': draw(st.sampled_from([0.2, 1.0])),
+                         'reply': None, 'thread': True})
         if mode.endswith('reopen'):
             events.append({'t': tc + draw(st.sampled_from([0.0, 0.01, 0.05, 0.15, 0.25, 0.9])), 'kind': 'reopen'})
             if draw(st.booleans()):
@@ -247,4 +270,4 @@ def retry_case(draw):
 
 
 def subchecks(tier):
-    return [Sub('timelines', run_retry, strategy=retry_case(), examples={'quick': 400, 'thorough': 20000})]
+    return [Sub('timelines', run_retry, strategy=retry_case(), examples={'quick': 2000, 'thorough': 60000})]
